@@ -22,7 +22,8 @@ VERIF = os.path.dirname(os.path.dirname(os.path.abspath(__file__)))
 REPO = os.environ.get("VERIF_REPO", "/repo")
 BUILD = os.path.join(VERIF, "_build")
 COQ = os.path.join(VERIF, "coq")
-EVIDENCE = os.path.join(VERIF, "evidence")
+# runs against a scratch tree (seeded changes) must not overwrite the committed evidence of /repo
+EVIDENCE = os.path.join(VERIF, "evidence") if os.path.realpath(REPO) == "/repo" else os.path.join(BUILD, "evidence_scratch")
 CORPUS = os.path.join(VERIF, "corpus")
 REPLAY = os.path.join(BUILD, "replay")
 PY = "/venv/bin/python"
